@@ -225,14 +225,16 @@ func c13Null(a *acc) {
 		row  Row
 		null bool // s is absent or NULL
 		dx   bool // d.x is absent or NULL
+		deep bool // p.q.r is absent or NULL (root, middle link or leaf)
 	}
 	rowsV := []rv{
-		{"s='a',d.x=1", Row{"s": "a", "d": map[string]any{"x": 1}}, false, false},
-		{"s='',d.x=0", Row{"s": "", "d": map[string]any{"x": 0}}, false, false},
-		{"s=0", Row{"s": 0, "d": map[string]any{}}, false, true},
-		{"s=false,d.x=NULL", Row{"s": false, "d": map[string]any{"x": nil}}, false, true},
-		{"s=NULL,d=NULL", Row{"s": nil, "d": nil}, true, true},
-		{"s missing,d missing", Row{"other": 1}, true, true},
+		{"s='a',d.x=1,p.q.r=1", Row{"s": "a", "d": map[string]any{"x": 1}, "p": map[string]any{"q": map[string]any{"r": 1}}}, false, false, false},
+		{"s='',d.x=0,p.q.r=NULL", Row{"s": "", "d": map[string]any{"x": 0}, "p": map[string]any{"q": map[string]any{"r": nil}}}, false, false, true},
+		{"s=0,p.q=NULL", Row{"s": 0, "d": map[string]any{}, "p": map[string]any{"q": nil}}, false, true, true},
+		{"s=false,d.x=NULL,p.q missing", Row{"s": false, "d": map[string]any{"x": nil}, "p": map[string]any{"other": 1}}, false, true, true},
+		{"s=NULL,d=NULL,p=NULL", Row{"s": nil, "d": nil, "p": nil}, true, true, true},
+		{"s missing,d missing,p missing", Row{"other": 1}, true, true, true},
+		{"p.q.r missing", Row{"s": "b", "d": map[string]any{"x": 2}, "p": map[string]any{"q": map[string]any{}}}, false, false, true},
 	}
 	var rows []Row
 	for i, r := range rowsV {
@@ -254,6 +256,10 @@ func c13Null(a *acc) {
 		{"select-is-not-null", "SELECT s IS NOT NULL AS n FROM stream", func(r rv) bool { return !r.null }, "col", "n"},
 		{"case-is-null", "SELECT CASE WHEN s IS NULL THEN 1 ELSE 0 END AS n FROM stream", func(r rv) bool { return r.null }, "col", "n"},
 		{"case-is-not-null", "SELECT CASE WHEN s IS NOT NULL THEN 1 ELSE 0 END AS n FROM stream", func(r rv) bool { return !r.null }, "col", "n"},
+		{"where-deep-is-null", "SELECT id FROM stream WHERE p.q.r IS NULL", func(r rv) bool { return r.deep }, "where", ""},
+		{"where-deep-is-not-null", "SELECT id FROM stream WHERE p.q.r IS NOT NULL", func(r rv) bool { return !r.deep }, "where", ""},
+		{"case-deep-is-null", "SELECT CASE WHEN p.q.r IS NULL THEN 1 ELSE 0 END AS n FROM stream", func(r rv) bool { return r.deep }, "col", "n"},
+		{"where-deep-or", "SELECT id FROM stream WHERE p.q.r IS NULL OR d.x IS NULL", func(r rv) bool { return r.deep || r.dx }, "where", ""},
 		{"where-and", "SELECT id FROM stream WHERE s IS NOT NULL AND d.x IS NULL", func(r rv) bool { return !r.null && r.dx }, "where", ""},
 	}
 	for _, qq := range qs {
